@@ -126,6 +126,7 @@ inductive Op where
   | range (i : Nat) (r0 r1 : Rat)
   | clamp (i : Nat) (c : Bool)
   | nice (i : Nat) (m : Rat)
+  | inplace (i : Nat) (a b : Rat)   -- what `nice` does to the list, with given new end points
   | copy (i : Nat)
 deriving Repr
 
@@ -166,6 +167,12 @@ def stepOp (sharedCopy : Bool) (h : Heap) : Op → Heap
       let d := h.cell o.domCell
       let h1 := { h with cells := h.cells.set o.domCell (nice d.1 d.2 m) }   -- in place
       setObj h1 i (rescale h1 o)                                               -- only the receiver rescales
+  | .inplace i a b =>
+    match h.objs[i]? with
+    | none => h
+    | some o =>
+      let h1 := { h with cells := h.cells.set o.domCell (a, b) }
+      setObj h1 i (rescale h1 o)
   | .copy i =>
     match h.objs[i]? with
     | none => h
@@ -184,5 +191,78 @@ def reported (h : Heap) (o : SObj) : Rat × Rat × Rat × Rat × Bool :=
 
 /-- every object maps with exactly the end points it reports -/
 def coherentB (h : Heap) : Bool := h.objs.all (fun o => o.cached == reported h o)
+
+/-! ### property predicates for ticks and nice (C13, C14), with an explicit tolerance for float observations -/
+
+def increasingB : List Rat → Bool
+  | a :: b :: rest => decide (a < b) && increasingB (b :: rest)
+  | _ => true
+
+/-- `x` is within `tol` of an integer multiple of `step` -/
+def nearMultipleB (step tol x : Rat) : Bool :=
+  let q := x / step
+  let r := q - ((q + 1/2).floor : Rat)
+  decide (ratAbs r * step ≤ tol)
+
+/-- observed ticks `l` for domain `[d0,d1]`, count `m`: increasing multiples of the model's step, inside the domain,
+none missing except possibly one at either end (float end effects), count within `[⌊0.57 m⌋, 1.43 m + 1]` -/
+def ticksOKB (d0 d1 m : Rat) (l : List Rat) : Bool :=
+  let e := extent d0 d1
+  let step := (tickRange d0 d1 m).2.2
+  if step ≤ 0 then l.isEmpty else
+  let tol := step / 1000000
+  let lo := ((e.1 / step - 1/1000000000).ceil : Int)     -- first multiple certainly inside
+  let hi := ((e.2 / step + 1/1000000000).floor : Int)
+  let lo' := ((e.1 / step + 1/1000000000).ceil : Int)    -- multiples that may be lost to float effects are between
+  let hi' := ((e.2 / step - 1/1000000000).floor : Int)
+  let n : Int := l.length
+  increasingB l && l.all (nearMultipleB step tol) &&
+    l.all (fun x => decide (e.1 - tol ≤ x) && decide (x ≤ e.2 + tol)) &&
+    decide (hi' - lo' + 1 ≤ n) && decide (n ≤ hi - lo + 1) &&
+    decide ((((57 : Rat) / 100) * m).floor ≤ n) && decide ((n : Rat) ≤ (143 : Rat) / 100 * m + 1)
+
+/-- the step has the form 1, 2 or 5 times a power of ten -/
+def stepFormB (step : Rat) : Bool :=
+  if step ≤ 0 then false else
+  let k := floorLog10 step
+  let r := step / pow10 k
+  r == 1 || r == 2 || r == 5
+
+/-- parse a decimal text `[-]digits[.digits]` -/
+def parseDecimal (s : String) : Option Rat :=
+  let neg := s.startsWith "-"
+  let body := if neg then (s.drop 1).toString else s
+  match body.splitOn "." with
+  | [ip] => (ip.toNat?).map (fun n => if neg then -(n : Rat) else (n : Rat))
+  | [ip, fp] => do
+    let a ← ip.toNat?
+    let b ← fp.toNat?
+    let v : Rat := (a : Rat) + (b : Rat) / (10 : Rat) ^ fp.length
+    some (if neg then -v else v)
+  | _ => none
+
+/-- tick texts are pairwise distinct and each reads back as its tick value to within a thousandth of the step -/
+def textsOKB (step : Rat) (l : List Rat) (texts : List String) : Bool :=
+  texts.length == l.length &&
+  (List.range texts.length).all (fun i => (List.range texts.length).all (fun j => i == j || texts[i]? != texts[j]?)) &&
+  (l.zip texts).all (fun p => match parseDecimal p.2 with
+    | some v => decide (ratAbs (v - p.1) ≤ step / 1000)
+    | none => false)
+
+/-- observed `nice` result `(n0, n1)` for `[d0, d1]`: no end moves inward (beyond `1e-9` step), orientation kept,
+each end moves out by less than two tick steps of the *resulting* domain, and lands on a multiple of a tenth of that step -/
+def niceOKB (d0 d1 m n0 n1 : Rat) : Bool :=
+  let step := (tickRange n0 n1 m).2.2
+  if d0 = d1 then n0 == d0 && n1 == d1 else
+  if step ≤ 0 then false else
+  let tol := step / 1000000000
+  let lo := ratMin d0 d1
+  let hi := ratMax d0 d1
+  let nlo := ratMin n0 n1
+  let nhi := ratMax n0 n1
+  (decide (d0 < d1) == decide (n0 < n1)) &&
+  decide (nlo ≤ lo + tol) && decide (hi ≤ nhi + tol) &&
+  decide (lo - nlo < 2 * step + 2 * tol) && decide (nhi - hi < 2 * step + 2 * tol) &&
+  nearMultipleB (step / 10) tol nlo && nearMultipleB (step / 10) tol nhi
 
 end Labella.Scale
